@@ -307,6 +307,94 @@ func checkC11(c *Ctx) *report.Result {
 	// the constructor must not return a machine without a controller
 	_, _, hasNil := c.carts()
 	r.Ob("P-nil", !hasNil, "constructed machine always has a cartridge controller", "", "gameboy.New can return a machine whose controller is nil (the decoder would dereference it on the first access)")
+	// the reviewed fact "the OAM object's last-PPU-access cell lies in FE00-FE9F" is re-established on the current
+	// tree: (a) every store to it, over every run-phase entry, stores a value in that range; (b) every PPU step
+	// that runs in mode 2 - the only time the corruption routines can use it - stores it on every path, so the
+	// power-on value 0 is gone after the first PPU step whatever the LCDC flags are
+	if oamObj := c.objectOfType("oam.OAM"); oamObj != nil && ai.LeafTypeAt(oamObj.T, ".ppuLastAccess") != nil {
+		bad := map[string]string{}
+		n := 0
+		scanFns := map[string]bool{}
+		for _, pf := range c11ParamFacts {
+			scanFns[pf.Fn] = true
+		}
+		c.evalAllEntries(ai.Hooks{
+			Store: func(_ *ai.State, at ssa.Instruction, p *ai.Ptr, keys []ai.CellKey, v ai.Value, _ bool) {
+				for _, k := range keys {
+					if k.Obj == oamObj.ID && k.Path == ".ppuLastAccess" {
+						if c.onStack(scanFns) {
+							continue // the scan's accesses are decided per schedule state in (b): the entry index follows from the tick
+						}
+						n++
+						if iv, ok := v.(*ai.Int); !ok || iv.Lo < 0xFE00 || iv.Hi > 0xFE9F {
+							bad[fmt.Sprintf("stores %s", ai.ValueString(v))] = c.pos(at)
+						}
+					}
+				}
+			},
+		}, func(*world.Entry, *ai.State) {})
+		for k, pos := range bad {
+			r.Ob("P-index", false, "last PPU access cell: "+k, pos, "the OAM-bug routines compute a row index from this cell; a value outside FE00-FE9F indexes the 160-byte OAM array out of range")
+		}
+		r.Ob("P-index", n > 0, "stores to the last-PPU-access cell examined over every run-phase entry", "", fmt.Sprintf("%d stores", n))
+		pm := c.ppuModel()
+		if len(pm.Errors) > 0 {
+			r.Fail("unresolved", "P-index", "PPU model", "", strings.Join(pm.Errors, "; "))
+		} else {
+			var miss []string
+			facts := pm.scanFacts()
+			for _, f := range facts {
+				if !(f.OK && f.LastStored && f.LastAccess != nil && f.LastAccess.Lo >= 0xFE00 && f.LastAccess.Hi <= 0xFE9F) && len(miss) < 4 {
+					miss = append(miss, fmt.Sprintf("tick %d (first line %v): afterwards %s", f.From.T, f.From.FirstLine, ai.ValueString(f.LastAccess)))
+				}
+			}
+			r.Ob("P-index", len(miss) == 0 && len(facts) > 0, "every PPU step in mode 2 stores the last-PPU-access cell, whatever the LCDC flags are", firstPos(c, pm.StepFn), fmt.Sprintf("%d mode-2 steps; steps that may leave the cell as it was (0 after power-on, which the OAM-bug routines turn into row 8128): %v", len(facts), miss))
+		}
+	}
+	// the other reviewed facts are re-established the same way instead of being taken on trust:
+	// (i) the scan routine's parameter stays in 0..19 and its entry numbers in 0..39: per schedule state
+	if pm := c.ppuModel(); len(pm.Errors) == 0 {
+		var badIdx []string
+		for _, f := range pm.scanFacts() {
+			for _, k := range f.Entries {
+				if (k < 0 || k > 39) && len(badIdx) < 4 {
+					badIdx = append(badIdx, fmt.Sprintf("tick %d: entry %d", f.From.T, k))
+				}
+			}
+			for _, k := range f.OAMIdx {
+				if (k < 0 || k > 159) && len(badIdx) < 4 {
+					badIdx = append(badIdx, fmt.Sprintf("tick %d: OAM byte %d", f.From.T, k))
+				}
+			}
+		}
+		r.Ob("P-index", len(badIdx) == 0, "the OAM scan touches entries 0-39 and OAM bytes 0-159 only, in every mode-2 step of the schedule", firstPos(c, pm.StepFn), strings.Join(badIdx, "; "))
+	}
+	// (ii) the DMA cycle counter stays in 0..161: the per-cycle table and the restart rule of C16
+	adopt(r, c.sibling("C16"), map[string]string{"D-table": "P-index", "D-start": "P-index"}, "the OAM array is indexed by the transfer cycle: a counter that can leave 0..161 indexes it out of range")
+	// (iii) every dispatch row entry is a function (the machine-cycle step calls row[cycle] without a nil test)
+	{
+		m := c.machine()
+		nilEntries := 0
+		total := 0
+		for page := 0; page < 2; page++ {
+			for k := 0; k < 256; k++ {
+				row := m.Base[k]
+				if page == 1 {
+					row = m.CB[k]
+				}
+				if row == nil || !row.FetchOK {
+					continue
+				}
+				for _, sub := range row.Subs {
+					total++
+					if _, isF := sub.(*ai.Func); !isF {
+						nilEntries++
+					}
+				}
+			}
+		}
+		r.Ob("P-nil", nilEntries == 0 && total > 1000, "every entry of every dispatch row is a function", "", fmt.Sprintf("%d entries, %d not a resolved function (the machine-cycle step calls row[cycle] without a nil test)", total, nilEntries))
+	}
 	// the reviewed assumption "row[cycle] is in range" rests on the scheduler lemmas of C02: they
 	// are re-established here on the current tree instead of being taken on trust
 	{
